@@ -33,17 +33,60 @@ type DevStats struct {
 	Deviations int
 }
 
+// DevOpt bounds one message-level execution. With DevRounds > 0 choice points exist only while
+// some live node is still inside its first DevRounds rounds (the adversarial prefix); when that
+// window closes ("GST") the latest root height reaches every node that lacks it and delivery is
+// the default (synchronous) one for TailRounds further rounds per node.
+type DevOpt struct {
+	MaxRounds  uint64
+	DevRounds  uint64
+	TailRounds uint64
+	Trace      bool
+}
+
 // RunDev executes one schedule on a fresh world.
 func RunDev(cfg Config, c *mc.Chooser, maxRounds uint64, trace bool) (*World, DevStats) {
+	return RunDevOpt(cfg, c, DevOpt{MaxRounds: maxRounds, Trace: trace})
+}
+
+func RunDevOpt(cfg Config, c *mc.Chooser, o DevOpt) (*World, DevStats) {
 	w := New(cfg)
-	w.TraceOn = trace
+	w.TraceOn = o.Trace
+	maxRounds := o.MaxRounds
 	held := map[int][]*Envelope{} // recipient -> messages to deliver right after its next fire
 	var maxRH uint64 = cfg.BaseRH
-	for guard := 0; guard < 2000; guard++ {
+	gst := false
+	limit := map[int]uint64{}
+	horizon := func(i int) uint64 {
+		if gst {
+			return limit[i]
+		}
+		return maxRounds
+	}
+	for guard := 0; guard < 4000; guard++ {
+		if o.DevRounds > 0 && !gst {
+			inside := false
+			for i := range w.Nodes {
+				if w.Live(i) && roundsUsed(w, i) < o.DevRounds {
+					inside = true
+				}
+			}
+			if !inside {
+				// GST: from here on everything is delivered in time, including the root chain's latest height
+				gst = true
+				for i, n := range w.Nodes {
+					if w.Live(i) && n.ctl.rh < maxRH {
+						w.BumpRoot(i, maxRH)
+					}
+					limit[i] = roundsUsed(w, i) + o.TailRounds + skewRounds(w, cfg)
+				}
+				w.tracef("GST")
+			}
+		}
 		// next timer generation among live nodes still inside the horizon
 		min := int64(-1)
 		for i, n := range w.Nodes {
-			if !w.Live(i) || roundsUsed(w, i) >= maxRounds {
+			if !w.Live(i) || roundsUsed(w, i) >= horizon(i) {
 				continue
 			}
 			if min < 0 || n.FireAt < min {
@@ -59,11 +102,11 @@ func RunDev(cfg Config, c *mc.Chooser, maxRounds uint64, trace bool) (*World, De
 		w.Pending = nil
 		var firedNow []int
 		for i, n := range w.Nodes {
-			if !w.Live(i) || n.FireAt != min || roundsUsed(w, i) >= maxRounds {
+			if !w.Live(i) || n.FireAt != min || roundsUsed(w, i) >= horizon(i) {
 				continue
 			}
 			// deviation: a root-height bump reaches this node just before this timer
-			if n.BFT.Phase != lib.Phase_ELECTION || n.Steps > 0 {
+			if !gst && (n.BFT.Phase != lib.Phase_ELECTION || n.Steps > 0) {
 				if c.Choose(2) == 1 {
 					// the root chain has ONE height: a node behind catches up, a node at the tip sees a new one
 					if n.ctl.rh == maxRH {
@@ -88,7 +131,11 @@ func RunDev(cfg Config, c *mc.Chooser, maxRounds uint64, trace bool) (*World, De
 			if !w.Live(e.To) {
 				continue
 			}
-			switch c.Choose(4) {
+			ch := 0
+			if !gst {
+				ch = c.Choose(4)
+			}
+			switch ch {
 			case 0:
 				_ = w.Deliver(e)
 			case 1: // lost
@@ -103,7 +150,7 @@ func RunDev(cfg Config, c *mc.Chooser, maxRounds uint64, trace bool) (*World, De
 		}
 		done := true
 		for i := range w.Nodes {
-			if w.Honest(i) && w.Live(i) && roundsUsed(w, i) < maxRounds {
+			if w.Honest(i) && w.Live(i) && roundsUsed(w, i) < horizon(i) {
 				done = false
 			}
 		}
@@ -115,18 +162,35 @@ func RunDev(cfg Config, c *mc.Chooser, maxRounds uint64, trace bool) (*World, De
 	return w, st
 }
 
+// skewRounds: timers are never re-aligned by the protocol (the pacemaker aligns round NUMBERS only), so
+// two groups of nodes whose timers are offset by a skew S keep that offset until the phase length
+// T*(2r+1) of the linear back-off exceeds S; only then do votes of one group reach the other group's
+// leader inside the phase that collects them. The skew accumulated by an adversarial prefix is at most
+// the virtual time that has passed, so the round bound after GST is the first r with T*(2r+1) >= now.
+func skewRounds(w *World, cfg Config) uint64 {
+	t := int64(cfg.Timeouts[0])
+	if t <= 0 {
+		t = 1
+	}
+	r := uint64(0)
+	for t*int64(2*r+1) < w.Now {
+		r++
+	}
+	return r
+}
+
 // roundsUsed counts the rounds node i has started since the beginning (rounds restart at 0 on a bump).
 func roundsUsed(w *World, i int) uint64 {
 	return w.Nodes[i].BFT.Round + w.roundsBase[i]
 }
 
 // DevViol is the agreement oracle for Search 2.
-func DevViol(cfgName string, w *World, c *mc.Chooser) *mc.Viol {
+func DevViol(cfgName string, w *World, c *mc.Chooser, rounds uint64) *mc.Viol {
 	if len(w.DistinctCommits()) <= 1 {
 		return nil
 	}
 	return &mc.Viol{Sig: "C01:fork:message-level", What: fmt.Sprintf("config %s: honest nodes committed different blocks under message-level schedule %v", cfgName, c.Trace),
-		Replay: map[string]any{"config": cfgName, "choices": c.Trace, "search": "message-level"}}
+		Replay: map[string]any{"config": cfgName, "choices": c.Trace, "search": "message-level", "rounds": rounds}}
 }
 
 // devSearch runs Search 2 on every (non-control) configuration and records its coverage.
@@ -159,7 +223,7 @@ func devSearch(r *mc.Run, cfgs []NamedConfig, cov map[string]any, only string) {
 			newBody := func() func(c *mc.Chooser) {
 				return func(c *mc.Chooser) {
 					w, _ := RunDev(nc.Cfg, c, rounds, false)
-					if v := DevViol(nc.Name, w, c); v != nil {
+					if v := DevViol(nc.Name, w, c, rounds); v != nil {
 						r.OnViol(*v)
 					}
 					var cs []string
@@ -184,4 +248,73 @@ func devSearch(r *mc.Run, cfgs []NamedConfig, cov map[string]any, only string) {
 	}
 	cov["search2_message_level"] = per
 	cov["search2_executions"] = total
+}
+
+// devLiveness is C15's second part: every message-level schedule with at most k deviations inside
+// the first devRounds rounds is an adversarial prefix; after it ("GST") the latest root height
+// reaches everybody and delivery is synchronous. An execution in which no honest node has
+// committed tailRounds rounds later is a violation. Prefixes in which an honest node committed
+// before GST have their block (it spreads through the block path, C02's gate).
+func devLiveness(r *mc.Run, cfgs []NamedConfig, cov map[string]any, only string) {
+	const tailRounds = 3 // + skewRounds (see there)
+	type bound struct {
+		k         int
+		devRounds uint64
+		n4only    bool
+	}
+	// bounds are iterated: the smaller one is completed before the larger one is attempted
+	bounds := []bound{{1, 2, false}, {2, 2, true}}
+	if !r.Quick() {
+		bounds = []bound{{1, 2, false}, {2, 2, false}, {2, 3, false}, {3, 2, true}}
+	}
+	var per []map[string]any
+	var total int64
+	for _, bd := range bounds {
+		for _, nc := range cfgs {
+			if nc.Negative || (only != "" && nc.Name != only) || (bd.n4only && len(nc.Cfg.Powers) != 4) {
+				continue
+			}
+			if r.Expired() {
+				r.Exhaustive = false
+				break
+			}
+			nc, bd := nc, bd
+			hist := map[string]int{}
+			var mu sync.Mutex
+			newBody := func() func(c *mc.Chooser) {
+				return func(c *mc.Chooser) {
+					w, _ := RunDevOpt(nc.Cfg, c, DevOpt{MaxRounds: bd.devRounds + tailRounds + 64, DevRounds: bd.devRounds, TailRounds: tailRounds})
+					honest, worst := 0, uint64(0)
+					for _, cm := range w.Commits {
+						if w.Honest(cm.Node) {
+							honest++
+							if ru := roundsUsed(w, cm.Node); ru > worst {
+								worst = ru
+							}
+						}
+					}
+					key := "none"
+					if honest > 0 {
+						key = fmt.Sprintf("%d honest commits, slowest in its round %d", honest, worst)
+					} else {
+						r.Violation("C15:no-commit-after-message-level-prefix", fmt.Sprintf("config %s: after the message-level prefix %v (<= %d deviations inside the first %d rounds), %d synchronous rounds did not commit at any honest node", nc.Name, c.Trace, bd.k, bd.devRounds, tailRounds),
+							map[string]any{"config": nc.Name, "choices": c.Trace, "search": "message-level-liveness", "dev_rounds": bd.devRounds})
+					}
+					mu.Lock()
+					hist[key]++
+					mu.Unlock()
+				}
+			}
+			st := mc.ExploreChoicesParallel(newBody, bd.k, 14, 0, r.Expired)
+			total += st.Executions
+			if !st.Complete {
+				r.Exhaustive = false
+			}
+			per = append(per, map[string]any{"config": nc.Name, "executions": st.Executions, "max_choice_points": st.MaxPoints, "deviation_bound": bd.k,
+				"prefix_rounds": bd.devRounds, "tail_rounds": tailRounds, "outcomes": hist, "complete": st.Complete})
+			fmt.Printf("liveness2 config=%s k<=%d prefix=%d rounds executions=%d outcomes=%v complete=%v\n", nc.Name, bd.k, bd.devRounds, st.Executions, hist, st.Complete)
+		}
+	}
+	cov["message_level_prefixes"] = per
+	cov["message_level_executions"] = total
 }
